@@ -42,7 +42,7 @@ STATES = {
 
 BAD = {"int": "bad!", "float": "1.5x", "bool": "maybe"}
 RANGE = {"int": "99999999999999999999999", "float": "1e999"}
-GOOD = {"int": ["1", "2", "3", "4"], "float": ["0.5", "1", "2.5", "4"], "bool": ["on", "no", "yes", "off"], "str": ["g1", "g2", "g3", "g4"]}
+GOOD = {"int": ["-1", "3000000000000", "-3", "4"], "float": ["0.5", "1", "2.5", "4"], "bool": ["on", "no", "yes", "off"], "str": ["g1", "g2", "g3", "g4"]}
 TYPED = [("i", "int", False), ("f", "float", False), ("b", "bool", False), ("il", "int", True), ("fl", "float", True), ("bl", "bool", True),
          ("ni", "int", False), ("el", "int", True), ("tm=a|zl", "int", True), ("single|x", "int", False),
          ("si", "int", False), ("sf", "float", False), ("sb", "bool", False)]
@@ -252,6 +252,8 @@ class C10:
                 # C09's alphabet addresses options of its own schema; keep those that exist here too
                 pre = [p for p in pre if bytes.fromhex(p[2][1:]).decode().split("|")[0].split("=")[0] in
                        ("i", "s", "il", "sl", "fl", "b", "ni", "f", "single", "tm", "tu", "multi")]
+                # ... and do not create the very sections whose absence makes a later call a refusal (the empty title)
+                pre = [p for p in pre if not (p[0] == "addtsec" and p[3] == "x")]
                 subs.append([state, draw(st.integers(0, len(CALLS) - 1)), pre])
             return {"subs": subs}
         return case()
